@@ -147,20 +147,24 @@ impl<T: Qcow2IoOps> Qcow2Dev<T> {
         self.mark_need_flush(true);
         drop(l2_table);
 
-        // Refcount-release the host cluster(s). For ordinary (non-
-        // compressed) entries this is always a single cluster, but we
-        // pass `host_count` through to mirror the existing free_clusters
-        // call sites in the COW path.
-        self.free_clusters(host_cluster, host_count).await?;
-
         // Punch the host file so the OS reclaims the bytes. The
         // FALLOCATE_ZERO_RANGE flag asks for both hole-punch + reads-as-
         // zero semantics. On filesystems that don't support either,
         // call_fallocate falls back to writing zeros (see `call_fallocate`
         // implementation), so the LBPRZ-equivalent contract still holds.
+        //
+        // This has to complete before the cluster is released: once its
+        // refcount is zero it can be allocated and written by someone else,
+        // and a punch landing after that would wipe the new owner's data.
         let punch_len = host_count * info.cluster_size();
         self.call_fallocate(host_cluster, punch_len, Qcow2OpsFlags::FALLOCATE_ZERO_RANGE)
             .await?;
+
+        // Refcount-release the host cluster(s). For ordinary (non-
+        // compressed) entries this is always a single cluster, but we
+        // pass `host_count` through to mirror the existing free_clusters
+        // call sites in the COW path.
+        self.free_clusters(host_cluster, host_count).await?;
 
         Ok(())
     }
